@@ -242,6 +242,57 @@ func c09r2(c *Check) {
 		}
 	})
 	c.Judge(len(bad) == 0, "nsqd.readOne only advances the look-ahead position", c.AtFn(ro), "stores only nextReadPos, nextReadFileNum, readFile, reader", "readOne modifies "+strings.Join(bad, ", ")+": reading ahead already acknowledges the message")
+	// reading ahead leaves the files alone: nothing reachable from readOne removes, renames or truncates a file
+	via := c.P.CG().Reach([]*ssa.Function{ro}, syncKinds, nil)
+	fsBad := ""
+	for f := range via {
+		if fnPkg(f) != fnPkg(ro) {
+			continue
+		}
+		allInstrs(f, func(in ssa.Instruction) {
+			if cc := callCommon(in); cc != nil {
+				switch calleeName(cc) {
+				case "os.Remove", "os.RemoveAll", "os.Rename", "(*os.File).Truncate", "os.Truncate":
+					fsBad = short(calleeName(cc)) + " in " + FuncName(f) + " at " + c.At(in)
+				}
+			}
+		})
+	}
+	c.Judge(fsBad == "", "nsqd.readOne does not touch the segment files", c.AtFn(ro), fmt.Sprintf("%d functions reachable from readOne: no remove / rename / truncate", len(via)), fsBad+": a segment is removed when its last record has been read ahead, not when it has been handed to the consumer — after a restart the record that was never delivered is gone")
+	// the segment that moveForward removes is the one that was just finished: its number is the read cursor's
+	// file number from before the cursor was advanced
+	mf := c.P.Func("nsqd", "*DiskQueue", "moveForward")
+	rfn := dqField(c, "readFileNum")
+	var advance *ssa.Store
+	allInstrs(mf, func(in ssa.Instruction) {
+		if st, ok := in.(*ssa.Store); ok {
+			if fa, ok := st.Addr.(*ssa.FieldAddr); ok && fieldOfAddr(fa) == rfn {
+				advance = st
+			}
+		}
+	})
+	nRem, rmBad := 0, ""
+	for _, f := range workerFuncs(c.P, mf) {
+		allInstrs(f, func(in ssa.Instruction) {
+			call, ok := in.(*ssa.Call)
+			if !ok || calleeName(call.Common()) != "os.Remove" {
+				return
+			}
+			nRem++
+			// the name: fileName(<number>)
+			nameCall, ok := call.Call.Args[0].(*ssa.Call)
+			if !ok || !strings.HasSuffix(calleeName(nameCall.Common()), "DiskQueue).fileName") {
+				return
+			}
+			num := nameCall.Call.Args[len(nameCall.Call.Args)-1]
+			if ld, ok := num.(*ssa.UnOp); ok && isFieldLoad(ld, rfn) && advance != nil && f == mf && instrDominates(advance, ld) {
+				rmBad = "the removed file is named after readFileNum as read at " + c.At(ld) + ", after the cursor was advanced at " + c.At(advance)
+			}
+		})
+	}
+	if advance != nil && nRem > 0 {
+		c.Judge(rmBad == "", "nsqd.moveForward removes the segment it has just finished", c.AtFn(mf), "the removed file's number is taken before readFileNum is advanced", rmBad+": the segment that is deleted is the next, still unread one, and the consumed one stays behind")
+	}
 }
 
 func c09r3(c *Check) {
